@@ -43,6 +43,17 @@ fn one(line: &str) -> String {
                 format!("ok {} rt={} line={}", hex::encode(canon(&t2).as_bytes()), rt as u8, !t2.contains('\n') as u8)
             }
         },
+        k if k.starts_with("entry") => {
+            // value level: a ValueEntry built in memory, written and read back (the node / file format of the store)
+            let v: Value = serde_json::from_str(&text).expect("json");
+            let e = match k.strip_prefix("entryC:") {
+                Some(n) => worterbuch_common::ValueEntry::Cas(v, n.parse().expect("version")),
+                None => worterbuch_common::ValueEntry::Plain(v),
+            };
+            let t2 = serde_json::to_string(&e).expect("ser");
+            let rt = serde_json::from_str::<worterbuch_common::ValueEntry>(&t2).map(|e2| e2 == e).unwrap_or(false);
+            format!("ok {} rt={} line={}", hex::encode(t2.as_bytes()), rt as u8, !t2.contains('\n') as u8)
+        }
         other => panic!("unknown kind {other}"),
     }
 }
